@@ -8,9 +8,11 @@ import (
 	"os"
 	"path/filepath"
 	"runtime"
+	"runtime/debug"
 	"strconv"
 	"strings"
 	"sync"
+	"sync/atomic"
 	"testing"
 	"time"
 
@@ -188,6 +190,10 @@ func checkProp(t *testing.T, property string, col *stats.Collector, prop func(c 
 			if p == "" {
 				p = "none"
 			}
+			if hp, ok := harnessPanic.Load().(string); ok && hp != "" {
+				fmt.Fprintf(os.Stdout, "HARNESS-ERROR: panic inside the harness: %s (case saved as %s)\n", hp, p)
+				return
+			}
 			fmt.Fprintf(os.Stdout, "VIOLATION property=%s replay=%s\n", property, p)
 		}
 	}()
@@ -196,7 +202,11 @@ func checkProp(t *testing.T, property string, col *stats.Collector, prop func(c 
 		defer func() {
 			r := recover()
 			if r != nil && !isRapidInternal(r) {
-				saveFailure(c.j, fmt.Sprintf("panic: %v", r))
+				if where := panicOrigin(debug.Stack()); strings.HasPrefix(where, "verif/") {
+					// the harness itself panicked (not the code under test): a defect of the check, never a violation
+					harnessPanic.Store(fmt.Sprintf("%v at %s", r, where))
+				}
+				saveFailure(c.j, fmt.Sprintf("panic: %v\n%s", r, debug.Stack()))
 			} else if rt.Failed() {
 				saveFailure(c.j, c.msg)
 			}
@@ -246,4 +256,25 @@ func hashString(s string) uint64 {
 	h := fnv.New64a()
 	_, _ = h.Write([]byte(s))
 	return h.Sum64()
+}
+
+var harnessPanic atomic.Value
+
+// panicOrigin returns the function in which a recovered panic was raised: the first frame below
+// the runtime's panic machinery in the stack of the recovering goroutine.
+func panicOrigin(stack []byte) string {
+	lines := strings.Split(string(stack), "\n")
+	seenPanic := false
+	for i := 1; i+1 < len(lines); i += 2 {
+		fn := strings.TrimSpace(lines[i])
+		if strings.HasPrefix(fn, "panic(") || strings.HasPrefix(fn, "runtime.gopanic") {
+			seenPanic = true
+			continue
+		}
+		if !seenPanic || strings.HasPrefix(fn, "runtime.") {
+			continue
+		}
+		return fn
+	}
+	return ""
 }
